@@ -670,4 +670,78 @@ def rule_bitmask(ctx) -> RuleResult:
             res.report(f"{g.qualname}|incidence-overflow", g.where(c), g.qualname,
                        f"'{norm(c)[:70]}' sums repeated (block, label) pairs in {narrow[0]}: a label with a multiple of 256 members in one block is recorded as "
                        "absent from it, is assigned to no cohort (or a plan that does not cover it) and silently receives the fill value")
+    # block-id shortcut: a branch that pairs element i with block i (rows = np.arange(<number of blocks>), cols = the labels themselves, no
+    # per-block slicing) is only right when EVERY chunk has size one.  Its guard must look at the individual chunk sizes (all(c == 1 ...)):
+    # aggregate quantities (total length == number of chunks) also hold for chunks like (2, 0, 1).
+    for st in walk_own(f.node):
+        if not isinstance(st, ast.If):
+            continue
+        body_calls = [c for b in st.body for c in ast.walk(b) if isinstance(c, ast.Call)]
+        pairs_by_position = any(norm(c.func) in ("np.arange", "numpy.arange") and c.args and "chunk" in norm(c.args[0]) for c in body_calls)
+        slices = any("slices_from_chunks" in norm(c.func) for c in body_calls) \
+            or any(isinstance(x, (ast.For, ast.ListComp, ast.GeneratorExp)) for b in st.body for x in ast.walk(b))
+        if not pairs_by_position or slices or not any(isinstance(b, ast.Return) for b in st.body):
+            continue
+        per_chunk = False
+        for c in ast.walk(st.test):
+            if isinstance(c, ast.Call) and norm(c.func) in ("all", "np.all") and c.args:
+                a0 = c.args[0]
+                cmp1 = any(isinstance(x, ast.Compare) and any(isinstance(k, ast.Constant) and k.value == 1 for k in [x.left] + x.comparators) for x in ast.walk(a0))
+                if cmp1 and any("chunk" in nm for nm in names_in(a0)):
+                    per_chunk = True
+        res.inst(f"{f.qualname}: block-id shortcut guarded by '{norm(st.test)[:60]}': inspects every chunk size: {per_chunk}", f"{f.qualname}|shortcut")
+        if not per_chunk:
+            res.report(f"{f.qualname}|block-id-shortcut-guard", f.where(st), f.qualname,
+                       f"the shortcut pairs element i with block i, but its guard '{norm(st.test)[:60]}' compares aggregate quantities only: it also holds for chunks "
+                       "such as (2, 0, 1) (a zero-length chunk), and the elements are then assigned to the wrong blocks -- members of a cohort are silently dropped")
+    return res
+
+
+# ---------------------------------------------------------------------------------------------
+# R-MESHINDEX (C09, C19): the block-key array is never subscripted with slices and open-mesh arrays mixed.
+# dask's `_key_array` is a NumPy object array.  NumPy moves the dimensions of advanced indices that are *separated by a slice* to the front of the
+# result, so an index (mesh, slice, mesh) returns the keys in another axis order than the chunks computed axis by axis next to it: IndexError
+# at graph construction, or blocks of one cohort paired with the chunks of another axis.  Accepted: an index that is an open mesh over every
+# axis (np.ix_(*positions)), or one whose def-use closure (through the flox helper that builds it) contains no np.ix_ at all (basic indexing).
+def rule_meshindex(ctx) -> RuleResult:
+    res = RuleResult("R-MESHINDEX", "the block-key array is indexed with an open mesh over every axis, never with slices and meshes mixed", min_instances=1)
+    from .codes import _local_closure
+    prog = ctx.prog
+    n = 0
+    for q, f in sorted(prog.funcs.items()):
+        if isinstance(f.node, ast.Lambda):
+            continue
+        for s in walk_own(f.node):
+            if not (isinstance(s, ast.Subscript) and isinstance(s.value, ast.Attribute) and s.value.attr == "_key_array"):
+                continue
+            n += 1
+            idx = s.slice
+            if isinstance(idx, ast.Name):
+                defs = [a.value for a in walk_own(f.node) if isinstance(a, ast.Assign) and len(a.targets) == 1 and norm(a.targets[0]) == idx.id]
+                if len(defs) == 1:
+                    idx = defs[0]
+            if isinstance(idx, ast.Call) and norm(idx.func) in ("np.ix_", "numpy.ix_"):
+                res.inst(f"{q}: {norm(s)[:60]}: open mesh over every axis", f"{q}|{norm(s)[:40]}")
+                continue
+            clo = list(_local_closure(f, idx, limit=8))
+            # one level through flox helpers that build the index
+            for e in list(clo):
+                for c in ast.walk(e):
+                    if isinstance(c, ast.Call) and isinstance(c.func, ast.Name):
+                        g = next((h for qq, h in prog.funcs.items() if qq.count(".") == 1 and qq.split(".")[-1] == c.func.id), None)
+                        if g is not None and g is not f:
+                            for r in walk_own(g.node):
+                                if isinstance(r, ast.Return) and r.value is not None:
+                                    clo += _local_closure(g, r.value, limit=8)
+            has_mesh = any(isinstance(c, ast.Call) and norm(c.func) in ("np.ix_", "numpy.ix_") for e in clo for c in ast.walk(e))
+            has_slice = any((isinstance(c, ast.Call) and norm(c.func) == "slice") or isinstance(c, ast.Slice) for e in clo for c in ast.walk(e))
+            res.inst(f"{q}: {norm(s)[:60]}: index built from open meshes: {has_mesh}, from slices: {has_slice}", f"{q}|{norm(s)[:40]}")
+            if has_mesh and has_slice:
+                res.report(f"{q}|key-array-mixed-index", f.where(s), q,
+                           f"'{norm(s)[:60]}' subscripts dask's NumPy key array with an index that mixes slices and np.ix_ meshes: when two meshes are separated by a slice "
+                           "(a cohort whose blocks are non-contiguous along the first and the last of three block axes) NumPy moves the mesh dimensions to the front, "
+                           "and the keys no longer line up with the per-axis chunks: IndexError at graph construction or blocks paired with the wrong chunks")
+    if n == 0:
+        res.notes.append("no subscript of a dask _key_array in the package: rule not applicable")
+        res.min_instances = 0
     return res
